@@ -57,6 +57,10 @@ def strip1(s):
 
 
 # naming positions: (id, ddl template with {X}, extractor of the reported name from the result)
+def _proj(t):
+    return t["project"] if "project" in t else t["table_properties"]["project"]
+
+
 def _col(i):
     return lambda r: r[0]["columns"][i]["name"]
 
@@ -65,6 +69,14 @@ POSITIONS = [
     ("schema", "CREATE TABLE {X}.t1 (a int, b int);", lambda r: r[0]["schema"]),
     ("table", "CREATE TABLE s1.{X} (a int, b int);", lambda r: r[0]["table_name"]),
     ("table_noschema", "CREATE TABLE {X} (a int, b int);", lambda r: r[0]["table_name"]),
+    # project-qualified (three-part) paths: every part keeps its delimiters
+    ("table_3part", "CREATE TABLE p1.s1.{X} (a int, b int);", lambda r: r[0]["table_name"]),
+    ("schema_3part", "CREATE TABLE p1.{X}.t1 (a int, b int);", lambda r: r[0].get("schema", r[0].get("dataset"))),
+    ("project_3part", "CREATE TABLE {X}.s1.t1 (a int, b int);", lambda r: _proj(r[0])),
+    ("all_3part_table", "CREATE TABLE {X}.{X}.{X} (a int, b int);", lambda r: (_proj(r[0]), r[0]["table_name"])[1]),
+    ("all_3part_project", "CREATE TABLE {X}.{X}.{X} (a int, b int);", lambda r: (r[0]["table_name"], _proj(r[0]))[1]),
+    ("ref_3part_table", "CREATE TABLE t1 (a int REFERENCES {X}.{X}.{X} (id), b int);", lambda r: r[0]["columns"][0]["references"]["table"]),
+    ("ref_3part_schema", "CREATE TABLE t1 (a int REFERENCES {X}.{X}.{X} (id), b int);", lambda r: r[0]["columns"][0]["references"]["schema"]),
     ("column_first", "CREATE TABLE t1 ({X} int, b int);", _col(0)),
     ("column_next", "CREATE TABLE t1 (a int, {X} varchar(5) NOT NULL, c int);", _col(1)),
     ("column_last", "CREATE TABLE t1 (a int, b int, {X} int DEFAULT 1);", _col(2)),
@@ -106,7 +118,11 @@ KW_POS = [("column_and_pk_list", "CREATE TABLE t1 (a int, {X} int, PRIMARY KEY (
           ("referenced_column", "CREATE TABLE t1 (a int REFERENCES o ({X}), b int);", lambda r: r[0]["columns"][0]["references"]["column"]),
           ("column_first", "CREATE TABLE t1 ({X} int, b int);", _col(0)),
           ("column_after_comma", "CREATE TABLE t1 (a int, {X} int);", _col(1)),
-          ("column_between_options", "CREATE TABLE t1 (a int NOT NULL DEFAULT 5, {X} varchar(10) NOT NULL, c int);", _col(1))]
+          ("column_between_options", "CREATE TABLE t1 (a int NOT NULL DEFAULT 5, {X} varchar(10) NOT NULL, c int);", _col(1)),
+          # one column per line: the keyword-shaped name is the first word of its line (the line filter must not take it for a statement)
+          ("column_line_start_kw", "CREATE TABLE t1 (\n    a int,\n    {X} varchar(10) NOT NULL,\n    c int\n);", _col(1)),
+          ("column_line_start_first_kw", "CREATE TABLE t1 (\n{X} int,\nb int DEFAULT 1\n);", _col(0)),
+          ("column_line_start_last_kw", "CREATE TABLE s1.t1\n(\n  a int\n, {X} int\n);", _col(1))]
 
 
 # keyword-shaped column names in ALTER TABLE statements: about half of the keywords are typed as keywords there (the name-position
@@ -207,6 +223,8 @@ def run(tier, seed):
     rnd = random.Random(seed)
     for pid, tpl, ext in KW_POS:
         for k in kws:
+            if "line_start" in pid and k in ("CREATE", "ALTER", "DROP", "SET", "GO", "USE", "INSERT", "GRANT", "DELETE"):
+                continue    # statement-level words at the start of a line: the proviso of C05
             form = k if rnd.random() < 0.5 else k.lower()
             ddl = tpl.replace("{X}", form) + "\n"
             tasks.append((ddl, {}, {}))
